@@ -16,7 +16,7 @@ from vlib import hpmath as hp
 from decimal import Decimal
 
 IMPORTS = ("From Coquelicot Require Import Coquelicot.\n"
-           "From SpdVerif Require Import Base.Rx Model.Optics Model.Fresnel Gen.Fresnel Proofs.C02_case.\n")
+           "From SpdVerif Require Import Base.Rx Model.Optics Model.Fresnel Gen.Fresnel Proofs.C02_walkoff_biaxial Proofs.C02_case.\n")
 DEG = math.pi / 180
 
 
@@ -222,6 +222,7 @@ def model_index(n, ct, cp, d, pol):
 def check_walk(ctx, obs):
     walks = [o for o in obs if o["kind"] == "walk"]
     goals = []
+    biaxial_goals = []
     for o in walks:
         ctx.count(f"walk:{o['gen']}")
         ctx.seen(("walk", o["id"], o["w"], o["ct"], o["cp"], o["pol"], o["bphi"], o["btheta"]))
@@ -262,6 +263,8 @@ def check_walk(ctx, obs):
         dn = (np_ - nm_) / (2 * eta)
         expect = float(hp.atan(-dn / nm))
         rep["expected_walkoff_rad"] = expect
+        if n[0] != n[1]:
+            biaxial_goals.append(o)
         if abs(rho - expect) > 1e-6:
             ctx.violation("S5", f"{o['id']}: walkoff_angle {rho!r} differs from atan(-(1/n) dn/dtheta) = {expect!r} by more than 1e-6 rad "
                           f"(crystal theta {float(ct)!r}, polarization {o['pol']})", {"kind": "walkoff_value", "pol": o["pol"]}, rep)
@@ -282,6 +285,7 @@ def check_walk(ctx, obs):
                               f"(angle from the optic axis {th!r} rad, polarization {o['pol']})", {"kind": "walkoff_closed_form", "pol": o["pol"]}, rep)
             if o["gen"] in ("pump", "orient") and o["pol"] == dep:
                 goals.append((o, th))
+    ctx.biaxial_walk = biaxial_goals
     return goals
 
 
@@ -334,6 +338,14 @@ def correspondence(ctx, kept, walk_goals, budget):
         goals.append((cid, f"Rabs (walkoff_gen (fun t => index_along_gen t {coq_hex(o['cp'])} {N} {Dv} {pol}) {coq_hex(o['ct'])} - {coq_hex(o['rho'])}) <= 1e-7",
                       "case_walk_gen"))
         meta[cid] = ("walkgen", o)
+    bw = getattr(ctx, "biaxial_walk", [])
+    for o in bw[:: max(1, len(bw) // max(3, budget // 10))]:
+        cid = f"b{len(goals)}"
+        N = " ".join(coq_hex(x) for x in o["n"])
+        Dv = "(" + ", ".join(coq_hex(x) for x in o["d"]) + ")"
+        pol = "Ordinary" if o["pol"] == "o" else "Extraordinary"
+        goals.append((cid, f"Rabs (walkoff_biaxial_closed {coq_hex(o['cp'])} {N} {Dv} {pol} {coq_hex(o['ct'])} - {coq_hex(o['rho'])}) <= 1e-6", "case_walk_biaxial"))
+        meta[cid] = ("walkbiaxial", o)
     res = run_interval_cases(ctx, "C02", IMPORTS, goals)
     failed = [g for g in goals if not res.get(g[0])]
     if failed:
@@ -354,10 +366,10 @@ def correspondence(ctx, kept, walk_goals, budget):
             continue
         m = meta[cid]
         o = m[1]
-        if m[0] in ("walk", "walkgen"):
+        if m[0] in ("walk", "walkgen", "walkbiaxial"):
             rep = {"crystal": o["id"], "crystal_theta_rad": fl(o["ct"]), "polarization": o["pol"], "rust_walkoff_rad": fl(o["rho"]), "case": cid}
             ctx.case_failures.append(rep)
-            ctx.violation("S4", f"{o['id']}: walk-off {'closed form' if m[0] == 'walk' else 'generated finite-difference model'} and "
+            ctx.violation("S4", f"{o['id']}: walk-off {'closed form' if m[0] == 'walk' else ('biaxial closed form' if m[0] == 'walkbiaxial' else 'generated finite-difference model')} and "
                           f"implementation disagree (rust {fl(o['rho'])!r}, crystal theta {fl(o['ct'])!r})", {"kind": "model_mismatch_walkoff", "which": m[0]}, rep, found_input=False)
             continue
         rep = dict(describe(o), case=cid, rust_ordinary=fl(o["no"]), rust_extraordinary=fl(o["ne"]))
